@@ -204,6 +204,34 @@ def contracts(tier):
                     ("wire-block-length", "RET.%s == %s" % (fn[2], BL)), ("keeps-end", "RET.%s == %s" % (fn[3], vw.end))]
             add(f, "flat_group::cursor_" + nm[1:], [OBJ(p, rec)] + vw.wf() + [OBJ(c, crec_)], post, props={"C04", "C10", "C11"})
 
+        # entry visiting: each entry exactly once, in order, stop as soon as a callback returns true (loop contract, any numInGroup)
+        for pre_nm, gname in (("r_f_visit_", "flat_group"), ("r_n_visit_", "nested_group")):
+            f = u.target(pre_nm + P)
+            p, rec, vw = group_view(f)
+            BL, N = wire(vw)
+            vv, cc = f.p[2], f.p[3]
+            vrec = crec(u, f, 2)
+            vf = [x["name"] for x in u.rec(vrec)["fields"]]
+            calls, stop_at = "%s->%s" % (vv, vf[0]), "%s->%s" % (vv, vf[1])
+            import re as _re
+            body = u.text[u.text.index("/*@BEGIN %s@*/" % f.mangled):u.text.index("/*@END %s@*/" % f.mangled)]
+            bname = _re.search(r"\b(__begin\d+)\b", body).group(1)
+            ename = bname.replace("begin", "end")
+            irec = None
+            m_ = _re.search(r"struct (\w+) %s;" % bname, body)
+            irec = m_.group(1)
+            ifn = [x["name"] for x in u.rec(irec)["fields"]]
+            bi, ei = "%s.%s" % (bname, ifn[0]), "%s.%s" % (ename, ifn[0])
+            inv = ["%s <= %s" % (bi, ei), "(unsigned long)%s == (unsigned long)%s" % (ei, N),
+                   "%s == __CPROVER_loop_entry(%s) + (unsigned long)%s" % (calls, calls, bi),
+                   "!(__CPROVER_loop_entry(%s) < %s && %s <= %s)" % (calls, stop_at, stop_at, calls)]
+            lp = Loop(assigns=[bi, calls], invariants=inv, decreases="(unsigned long)%s - (unsigned long)%s" % (ei, bi))
+            hit = "(OLD(%s) < %s && %s <= OLD(%s) + (unsigned long)%s)" % (calls, stop_at, stop_at, calls, N)
+            add(f, gname + "::visit_children", [OBJ(p, rec)] + vw.wf() + [OBJ(vv, vrec), OBJ(cc, crec_), ASSUME("%s <= (1UL << 32)" % calls)],
+                [("header-in-bounds-or-reported", "%d <= sbv_n" % HDR), ("stops-at-first-true-callback", "RET == (_Bool)%s" % hit),
+                 ("each-entry-visited-once-until-stop", "%s == (%s ? %s : OLD(%s) + (unsigned long)%s)" % (calls, hit, stop_at, calls, N))],
+                assigns=[calls], props={"C19", "C12"}, loops={0: lp})
+
         # ================= random access iterator
         f = u.target("r_it_deref_" + P)
         itrec = crec(u, f, 0)
